@@ -1,8 +1,12 @@
 #!/usr/bin/env python3
 """Runs the registered quick checks against every seeded change under /verif/seeded and records which detect it.
-usage: seed_matrix.py [seed-id ...] [--checks C01,C02]   (default: each seed against the check of its own property)"""
+usage: seed_matrix.py [seed-id ...] [--checks=C01,C02]   (default: each seed against the check of its own property)
+
+The patch is applied to /repo's working tree (git apply), the check runs, the tree is restored (git checkout -- .).
+The evidence files describe the UNCHANGED tree: they are saved before and restored after every run on a changed tree."""
 import json
 import os
+import shutil
 import subprocess
 import sys
 
@@ -23,10 +27,13 @@ def main():
     if sh("git -C /repo status --porcelain").stdout.strip():
         print("refusing: /repo has uncommitted changes")
         return 2
+    keep = f"{VERIF}/work/evidence_keep"
     for sid in seeds:
         d = f"{VERIF}/seeded/{sid}"
         meta = json.load(open(f"{d}/meta.json"))
         todo = checks or [meta["property"]]
+        shutil.rmtree(keep, ignore_errors=True)
+        shutil.copytree(f"{VERIF}/evidence", keep)
         try:
             r = sh(f"git -C /repo apply {d}/patch.diff")
             if r.returncode != 0:
@@ -40,9 +47,11 @@ def main():
                 det = [x for x in meta.get("detected_by", []) if x.get("check") != chk]
                 det.append(res)
                 meta["detected_by"] = det
-                print(sid, chk, "exit", r.returncode, "violations", nviol)
+                print(sid, chk, "exit", r.returncode, "violations", nviol, flush=True)
         finally:
             sh("git -C /repo checkout -- .")
+            for f in os.listdir(keep):
+                shutil.copy(os.path.join(keep, f), f"{VERIF}/evidence/{f}")
         json.dump(meta, open(f"{d}/meta.json", "w"), indent=1)
     return 0
 
